@@ -249,9 +249,13 @@ package scanner
 
 // ---- C08 ----
 
+// a read fixes its snapshot first and looks at the floor afterwards: a compaction accepted in between is
+// then either visible to the floor check (the read is refused) or later than the snapshot (harmless);
+// the other order would admit a read whose snapshot is already compacted
 //@ func (*scanner).checkCompactRace(ctx, revision, compact) (err)
 //@   props C08
 //@   requires wf_scanner(r) && !batch_open
+//@   requires@C08 [a-read-fixes-its-snapshot-before-the-floor-check] compact || snap_taken
 //@   modifies ghost.bw_n ghost.bw_kind ghost.bw_key ghost.bw_val ghost.bw_ttl ghost.commits ghost.last_batch ghost.last_err ghost.batch_open ghost.floor ghost.floor_set
 //@   ensures [read-refused-below-floor] !compact && err == nil ==> !floor_set || floor <= revision
 //@   ensures [read-leaves-floor] !compact ==> floor == old(floor) && floor_set == old(floor_set)
